@@ -24,6 +24,8 @@ SExpr(e) == [k |-> "expr", e |-> e]
 Let(n, e) == [k |-> "let", n |-> n, e |-> e]
 Const(n, e) == [k |-> "const", n |-> n, e |-> e]
 Asg(n, e) == [k |-> "asg", n |-> n, e |-> e]
+AsgSub(n, i, e) == [k |-> "asgsub", n |-> n, i |-> i, e |-> e]       \* n[i] = e on a local list
+Arr(args) == [k |-> "arr", args |-> args]
 Ret(e) == [k |-> "ret", e |-> e]
 BrkS(x) == [k |-> "break"]
 Block(b) == [k |-> "block", b |-> b]
